@@ -154,14 +154,17 @@ def storedTokens (st : St) : List Nat :=
     match st.m.buf? b with
     | some x => match x.traits with
       | some t => if t.fini.isSome ∧ t.size ≠ 0 then
-          (List.range (x.used / t.size)).map fun i => rdTok x.data (i * t.size)
+          let toks := (List.range (x.used / t.size)).map fun i => rdTok x.data (i * t.size)
+          -- destructor-only type: a zeroed element is an empty reference
+          if t.init then toks else toks.filter (· ≠ 0)
         else []
       | none => []
     | none => []
 
 /-- C05 judgement on the new events and the stored tokens (S = Spec/Tokens.lean) -/
 def judge (st : St) (final : Bool) : St × String :=
-  let evs := st.m.log.drop st.seenLog
+  -- the destructor of the destructor-only type ignores empty (zeroed) elements
+  let evs := (st.m.log.drop st.seenLog).filter fun e => e ≠ Ev.fini 0
   let r := evs.foldl (fun (acc : Tokens.Live × String) e =>
     let (lv, bad) := acc
     match e with
